@@ -223,6 +223,22 @@ fn main() {
             }
         }
     }
+    if ctx.extra.contains_key("structure-selftest") {
+        // sanity of the catalogue exported to C09 (counts only)
+        let a = cat_field::catalogue_for_structure::<midnight_curves::k256::Fq>(false);
+        let b2 = cat_field::catalogue_for_structure::<midnight_curves::Fp>(true);
+        let c = cat_big::catalogue_for_structure(false);
+        println!(
+            "structure catalogue: secp256k1.scalar quick {} entries / {} inputs; bls12_381.base thorough {} / {}; biguint quick {} / {}",
+            a.len(),
+            a.iter().map(|x| x.1.len()).sum::<usize>(),
+            b2.len(),
+            b2.iter().map(|x| x.1.len()).sum::<usize>(),
+            c.len(),
+            c.iter().map(|x| x.1.len()).sum::<usize>()
+        );
+        return;
+    }
     let mut rep = Report::new(
         &ctx,
         "case = (program over an emulated field or over BigUintGadget, operands). The honest run must be accepted (reference evaluator and MockProver) with \
@@ -249,9 +265,10 @@ fn main() {
     });
     // the driver's own free-instance seed moves compare raw instance vectors; for emulated elements a
     // different *well-formed representation of the same residue* is legitimate witness freedom, so
-    // C05 runs its own seed moves with a semantic comparison (c05_ops/attack.rs) instead
-    opts.seed_cells = 0;
-    opts.seed_inputs = 0;
+    // C05 also runs its own seed moves with a semantic comparison (c05_ops/attack.rs)
+    // (the driver's stage stays on with small counts as a generic layer)
+    opts.seed_cells = if thorough { 32 } else { 12 };
+    opts.seed_inputs = 1;
     let mut opts_nonunique = opts.clone();
     opts_nonunique.ars = None;
     opts_nonunique.max_positions = 0;
